@@ -41,6 +41,17 @@ NonCharClasses == {"c0ctl",     \* #x0-#x8 #xB #xC #xE-#x1F
 
 Representable(cls) == \A i \in DOMAIN cls : cls[i] \in CharClasses
 
+(* ---- extension header values ---------------------------------------------- *)
+(* e.hdr is what a RECEIVER reads: the field value of the HTTP header, i.e.  *)
+(* without the optional white space (SP, HTAB) around it (RFC 7230 3.2.4: it *)
+(* is not part of the value), then the DSP0200 decoding (%-unescape, UTF-8). *)
+(* Classes of target names (namespace / class / key / method names) the      *)
+(* drivers draw from; "edgeblank": the name ends with a blank, so that the   *)
+(* blank ends the header value (method name in CIMMethod; last namespace     *)
+(* component or class name in CIMObject).                                    *)
+HdrNameClasses == {"ascii", "punct", "pct", "latin1", "bmp", "astral",
+                   "edgeblank"}
+
 (* ---- the body's method and target --------------------------------------- *)
 SeqToSet(s) == {s[i] : i \in DOMAIN s}
 
